@@ -488,6 +488,18 @@ func setKeys(m map[string]bool) []string {
 	return out
 }
 
+func actionsDifferOnlyForAbsentTiers(a, b []tierS, present map[string]bool) bool {
+	if len(a) != len(b) {
+		return false
+	}
+	for i := range a {
+		if a[i].action != b[i].action && (a[i].name != b[i].name || present[a[i].name]) {
+			return false
+		}
+	}
+	return true
+}
+
 func tierNames(ts []tierS) string {
 	var sb strings.Builder
 	for _, t := range ts {
@@ -532,7 +544,7 @@ func stripTiers(ts []tierS, drop map[string]bool, withAction bool) string {
 //	"other": anything else.
 //
 // The class of the whole difference is "other" as soon as one cell is "other", else the known classes joined by "+".
-func diff(h, f *dpState, flapped map[string]bool) (lines []string, class string) {
+func diff(h, f *dpState, flapped map[string]bool, presentTiers map[string]bool) (lines []string, class string) {
 	found := map[string]bool{}
 	ids := map[string]bool{}
 	for k := range h.sets {
@@ -573,8 +585,8 @@ func diff(h, f *dpState, flapped map[string]bool) (lines []string, class string)
 			continue
 		}
 		if c.k == KEp && hv.base == fv.base && tierNames(hv.tiers) == tierNames(fv.tiers) &&
-			stripTiers(hv.tiers, nil, false) == stripTiers(fv.tiers, nil, false) {
-			// same tiers, same policy lists: only TierInfo attributes differ
+			stripTiers(hv.tiers, nil, false) == stripTiers(fv.tiers, nil, false) && actionsDifferOnlyForAbsentTiers(hv.tiers, fv.tiers, presentTiers) {
+			// same tiers, same policy lists: only the default_action of tiers that are NOT in the datastore differs
 			found["tier-default-action"] = true
 			lines = append(lines, fmt.Sprintf("%s: same tiers and policy lists, tier default_action differs: history=%s fresh=%s",
 				c, stripTiers(hv.tiers, nil, true), stripTiers(fv.tiers, nil, true)))
@@ -698,6 +710,7 @@ func (e event) String() string {
 }
 
 type stats struct {
+	checkpoints                                                                       int
 	events, flushes, reverts, dups, spuriousDel, delRef, flapped, msgsHist, msgsFresh int
 }
 
@@ -914,7 +927,7 @@ func genEvents(r *rng, u []*ukey, n int, scripted bool) []event {
 }
 
 func runCase(seed uint64, idx int, u []*ukey, st *stats) map[string]any {
-	r := &rng{s: seed*0x100000001b3 + uint64(idx)*0x9e3779b97f4a7c15 + 1}
+	r := caseRng(seed, idx)
 	routeSource := "CalicoIPAM"
 	if r.chance(25) {
 		routeSource = "WorkloadIPs"
@@ -925,13 +938,14 @@ func runCase(seed uint64, idx int, u []*ukey, st *stats) map[string]any {
 		n = 30 + r.intn(40)
 	}
 	evs := genEvents(r, u, n, scripted)
-	return evalHistory(seed, idx, u, st, evs, routeSource, scripted, r.next())
+	line, _ := evalHistory(seed, idx, u, st, evs, routeSource, scripted, r.next(), true)
+	return line
 }
 
 // shrinkCase: greedy delta-debugging of the history of case idx - drop chunks of events (then single events) as long
 // as the classification of the difference stays the same (and is not "none"); prints the minimised case.
 func shrinkCase(seed uint64, idx int, u []*ukey) map[string]any {
-	r := &rng{s: seed*0x100000001b3 + uint64(idx)*0x9e3779b97f4a7c15 + 1}
+	r := caseRng(seed, idx)
 	routeSource := "CalicoIPAM"
 	if r.chance(25) {
 		routeSource = "WorkloadIPs"
@@ -944,7 +958,7 @@ func shrinkCase(seed uint64, idx int, u []*ukey) map[string]any {
 	evs := genEvents(r, u, n, scripted)
 	shufSeed := r.next()
 	st := &stats{}
-	line := evalHistory(seed, idx, u, st, evs, routeSource, scripted, shufSeed)
+	line, evs := evalHistory(seed, idx, u, st, evs, routeSource, scripted, shufSeed, true)
 	class := line["diff_class"].(string)
 	if class == "none" {
 		return line
@@ -952,7 +966,7 @@ func shrinkCase(seed uint64, idx int, u []*ukey) map[string]any {
 	for chunk := len(evs) / 2; chunk >= 1; chunk /= 2 {
 		for i := 0; i+chunk <= len(evs); {
 			cand := append(append([]event(nil), evs[:i]...), evs[i+chunk:]...)
-			l2 := evalHistory(seed, idx, u, st, cand, routeSource, scripted, shufSeed)
+			l2, _ := evalHistory(seed, idx, u, st, cand, routeSource, scripted, shufSeed, false)
 			if l2["diff_class"].(string) == class {
 				evs, line = cand, l2
 			} else {
@@ -964,7 +978,34 @@ func shrinkCase(seed uint64, idx int, u []*ukey) map[string]any {
 	return line
 }
 
-func evalHistory(seed uint64, idx int, u []*ukey, st *stats, evs []event, routeSource string, scripted bool, shufSeed uint64) map[string]any {
+func presentTiers(cur map[string]uint64) map[string]bool {
+	m := map[string]bool{}
+	for k := range cur {
+		if strings.HasPrefix(k, "T") {
+			m[k[1:]] = true
+		}
+	}
+	return m
+}
+
+// caseRng derives an independent stream per (seed, case index).  (The state must not differ between cases by a multiple
+// of splitmix64's increment, or the cases would replay one shared stream shifted by one draw each.)
+func caseRng(seed uint64, idx int) *rng {
+	t := &rng{s: seed*0x100000001b3 ^ (uint64(idx)+1)*0xd6e8feb86659fd93}
+	a, b := t.next(), t.next()
+	return &rng{s: a ^ (b << 1) ^ uint64(idx)}
+}
+
+func isBadClass(c string) bool {
+	return c == "other" || c == "leak" || c == "panic" || c == "stream-not-closed"
+}
+
+// evalHistory runs one history on the real graph and compares it with fresh graphs fed the final state.
+// With scan=true the comparison is ALSO made (Go side) at every effective flush point inside the history - each is a
+// point where "the latest state has been delivered, in-sync signalled and Felix has flushed" - and the history is cut at
+// the first flush point whose difference is outside the known classes (else, if the end is clean, at the first flush
+// point showing a known class).  The case handed to Coq is the (possibly cut) history; returns it as well.
+func evalHistory(seed uint64, idx int, u []*ukey, st *stats, evs []event, routeSource string, scripted bool, shufSeed uint64, scan bool) (map[string]any, []event) {
 	r := &rng{s: shufSeed}
 	// ---- history run on the real graph
 	cur := map[string]uint64{}
@@ -976,6 +1017,7 @@ func evalHistory(seed uint64, idx int, u []*ukey, st *stats, evs []event, routeS
 	var ops []string
 	var hpanic string
 	var g *graph
+	firstKnown := -1
 	func() {
 		defer func() {
 			if p := recover(); p != nil {
@@ -983,13 +1025,50 @@ func evalHistory(seed uint64, idx int, u []*ukey, st *stats, evs []event, routeS
 			}
 		}()
 		g = newGraph(routeSource)
-		for _, e := range evs {
+		run := newDP()
+		done, nmsg := 0, 0
+		checkpoint := func() string {
+			for ; done < len(g.msgs); done++ {
+				if a := abstract(g.msgs[done]); a.op != "skip" {
+					run.apply(a, nmsg)
+					nmsg++
+				}
+			}
+			f, p := runFresh(u, cur, sortedKeys(cur), routeSource)
+			if p != "" {
+				return "panic"
+			}
+			fl := map[string]bool{}
+			for pk := range g.mr.flapped {
+				fl[pk.Kind+"/"+pk.Namespace+"/"+pk.Name] = true
+			}
+			fdp := dpOf(f)
+			_, cl := diff(run, fdp, fl, presentTiers(cur))
+			if len(run.bad)+len(fdp.bad) > 0 && cl == "none" {
+				cl = "stream-not-closed"
+			}
+			if len(exactRefs(run))+len(exactRefs(fdp)) > 0 {
+				cl = "leak"
+			}
+			return cl
+		}
+		for i, e := range evs {
 			ops = append(ops, e.String())
 			st.events++
+			stop := false
 			switch e.op {
 			case "flush":
 				st.flushes++
 				g.flush()
+				if scan && g.inSync {
+					st.checkpoints++
+					cl := checkpoint()
+					if isBadClass(cl) {
+						stop = true
+					} else if cl != "none" && firstKnown < 0 {
+						firstKnown = i
+					}
+				}
 			case "sync":
 				g.sync()
 			case "del":
@@ -1021,6 +1100,11 @@ func evalHistory(seed uint64, idx int, u []*ukey, st *stats, evs []event, routeS
 				v := e.k.build(e.variant)
 				built[e.k.name] = v
 				g.update(e.k.key, v, ut)
+			}
+			if stop {
+				evs = evs[:i+1]
+				tags["cut-at-flush-point"] = true
+				break
 			}
 		}
 		if !g.inSync {
@@ -1056,8 +1140,8 @@ func evalHistory(seed uint64, idx int, u []*ukey, st *stats, evs []event, routeS
 	panicked := hpanic != "" || p1 != "" || p2 != ""
 
 	hd, fd, fd2 := dpOf(hist), dpOf(f1), dpOf(f2)
-	dl, class := diff(hd, fd, flapped)
-	dl2, class2 := diff(fd2, fd, nil)
+	dl, class := diff(hd, fd, flapped, presentTiers(cur))
+	dl2, class2 := diff(fd2, fd, nil, presentTiers(cur))
 	if class2 != "none" {
 		tags["fresh-order-dependent"] = true
 		for _, l := range dl2 {
@@ -1116,8 +1200,12 @@ func evalHistory(seed uint64, idx int, u []*ukey, st *stats, evs []event, routeS
 	if len(leaks) > 0 {
 		sample["leaks"] = leaks
 	}
+	if scan && class == "none" && firstKnown >= 0 {
+		// the end of the history is clean but an inner flush point shows a known class: report that prefix
+		return evalHistory(seed, idx, u, st, evs[:firstKnown+1], routeSource, scripted, shufSeed, false)
+	}
 	return map[string]any{"coq": coq, "nt": nt, "key": fmt.Sprintf("%s|%s", routeSource, strings.Join(ops, ";")),
-		"sample": sample, "tags": tl, "diff_class": class}
+		"sample": sample, "tags": tl, "diff_class": class}, evs
 }
 
 // referenced: is the present object named by e.k referenced by another present object (delete-while-referenced)?
@@ -1183,7 +1271,7 @@ func main() {
 		}
 	}
 	_ = enc.Encode(map[string]any{"stats": map[string]int{
-		"events": st.events, "flushes": st.flushes, "reverts": st.reverts, "duplicates": st.dups,
+		"events": st.events, "flushes": st.flushes, "flush_points_compared": st.checkpoints, "reverts": st.reverts, "duplicates": st.dups,
 		"spurious_deletes": st.spuriousDel, "deletes_while_referenced": st.delRef,
 		"match_start_stop_between_flushes": st.flapped, "history_messages": st.msgsHist, "fresh_messages": st.msgsFresh,
 	}})
